@@ -103,6 +103,8 @@ def issue_property(case, issue, all_issues):
     if at in ("parameters", "argmap", "alt"):
         return "C12"
     if at == "map":
+        if what in ("cmr", "decode_accepted_map", "exec_panic_accepted_map"):
+            return "C02"
         return "C05"
     if at == "debug":
         return "C14"
